@@ -224,6 +224,12 @@ public:
             default: io_error( "png_reader_color_convert::read_data(): unknown color type" );
         }
 
+        // read_rows() re-armed the error guard inside its own frame, which is gone by now
+        if (setjmp( png_jmpbuf( this->get_struct() )))
+        {
+            io_error("png is invalid");
+        }
+
         // read rest of file, and get additional chunks in info_ptr
         png_read_end( this->get_struct()
                     , nullptr
